@@ -54,6 +54,27 @@ theorem src_interp_weights (xcur xnext ycur ynext g : Rat) :
   ⟨src_interpP0 xcur xnext g, src_interpP1 xcur xnext g, src_interpY xcur xnext ycur ynext g, src_interpOps.1,
    src_interpOps.2⟩
 
+/-- fit glue (`Generated/ThresholdFitSrc.lean`): the grid is `np.linspace(0, 1, N + 1)`, the overall curve is the
+    `len(group) / n`-weighted sum of the groups' interpolated objectives accumulated from 0, `p_ignore` is 0 on the ROC
+    diagonal and `(y - y_best) / (y - x)` elsewhere, the best index is `idxmax`, `n_negative = n - n_positive` -/
+theorem src_fit_glue (N i : Nat) (groups : List (List Row)) (is : List Interp) (r : Interp) (yBest n npos : Rat) :
+    gridVal N i = (i : Rat) / (N : Rat) ∧
+    objSimple groups is =
+      (List.zipWith (fun (g : List Row) (r : Interp) => ((g.length : Rat) / (totalRows groups : Rat)) * r.y) groups is).sum ∧
+    pIgnore r yBest = (if r.y = r.x then 0 else (r.y - yBest) / (r.y - r.x)) ∧
+    ThresholdFitSrc.bestIsIdxmax = true ∧ ThresholdFitSrc.eoNNeg n npos = n - npos :=
+  ⟨src_gridVal N i, src_objSimple groups is, src_pIgnore r yBest, (src_fit_misc n npos).1, (src_fit_misc n npos).2⟩
+
+/-- predict path as the fit sees it (`Generated/ThresholderSrc.lean`): operator ">" is `score > threshold`, "<" is
+    `score < threshold`, and `_pmf_predict` is `p_ignore * c + (1 - p_ignore) * (p0 * op0(s) + p1 * op1(s))` -/
+theorem src_predict_path (r : Rule) (s t : Rat) :
+    (ThresholderSrc.opGt s t = true ↔ t < s) ∧ (ThresholderSrc.opLt s t = true ↔ s < t) ∧
+    ruleProb r s =
+      (match r.ign with
+       | none => r.p0 * ind (r.op0.apply s) + r.p1 * ind (r.op1.apply s)
+       | some (pi, c) => pi * c + (1 - pi) * (r.p0 * ind (r.op0.apply s) + r.p1 * ind (r.op1.apply s))) :=
+  ⟨by rw [src_opGt_eq]; simp, by rw [src_opLt_eq]; simp, src_ruleProb r s⟩
+
 /-- (a) every METRIC_DICT entry is affine in the confusion counts for a fixed number of positives and negatives -/
 theorem metric_affine (m : Metric) (a b : Rat) (A B : CM) (hab : a + b = 1)
     (hp : A.positives = B.positives) (hn : A.negatives = B.negatives) :
